@@ -118,6 +118,8 @@ class P:
             s = "int %s%s" % (n, a(" +implied(size(%s))" % self.of))
         else:
             raise AssertionError(k)
+        if attrs:
+            s = respell_intent(s, n)
         if self.default is not None:
             s += " = %s" % fmt_default(self.default)
         return s
@@ -128,6 +130,16 @@ class P:
     def cxx(self, language):
         """parameter in the subject header"""
         return self.ctext(language, False)
+
+
+def respell_intent(s, name):
+    """attribute values are case-insensitive in a declaration (`+intent(OUT)`): the spelling varies with the parameter name"""
+    h = sum(map(ord, name)) % 3
+    if h == 0:
+        return s
+    for v in ("out", "inout", "in"):
+        s = s.replace("intent(%s)" % v, "intent(%s)" % (v.upper() if h == 1 else v.capitalize()))
+    return s
 
 
 def fmt_default(v):
